@@ -2,4 +2,3 @@ import Indi.Properties.C13
 #print axioms Indi.C13
 #print axioms Indi.generated_regConf
 #print axioms Indi.fromXml_conformant
-#print axioms Indi.number_regexps_pinned
